@@ -152,6 +152,10 @@ func stringConv(c *simkit.Choices, x *simkit.Ctx) *simkit.Violation {
 		st.Probe("stringconv-refused")
 		return nil
 	}
+	// (a typed container in the source - UBJSON [$S#... - makes the unfolder
+	// build []string / map[string]string instead of the interface containers:
+	// the same strings, another static type)
+	got = untype(got)
 	if !model.DeepEq(exp, got) {
 		return &simkit.Violation{Kind: "alias", Site: site,
 			Detail: fmt.Sprintf("values converted to strings by visitors.StringConvVisitor and stored by the unfolder: want %s | got %s", model.Render(exp), model.Render(got)), Scenario: sc}
@@ -585,4 +589,36 @@ func trunc(s string, n int) string {
 		return s[:n] + "…"
 	}
 	return s
+}
+
+// untype turns []string and map[string]string (at any depth) into the
+// interface containers holding the same strings.
+func untype(v interface{}) interface{} {
+	switch t := v.(type) {
+	case []string:
+		out := make([]interface{}, len(t))
+		for i, s := range t {
+			out[i] = s
+		}
+		return out
+	case map[string]string:
+		out := make(map[string]interface{}, len(t))
+		for k, s := range t {
+			out[k] = s
+		}
+		return out
+	case []interface{}:
+		out := make([]interface{}, len(t))
+		for i, e := range t {
+			out[i] = untype(e)
+		}
+		return out
+	case map[string]interface{}:
+		out := make(map[string]interface{}, len(t))
+		for k, e := range t {
+			out[k] = untype(e)
+		}
+		return out
+	}
+	return v
 }
